@@ -20,6 +20,7 @@ use serde_json::{json, Value};
 use smartcore::algorithm::neighbour::cover_tree::CoverTree;
 use smartcore::algorithm::neighbour::linear_search::LinearKNNSearch;
 use smartcore::algorithm::neighbour::KNNAlgorithmName;
+use smartcore::api::{Predictor, SupervisedEstimator};
 use smartcore::error::Failed;
 use smartcore::linalg::naive::dense_matrix::DenseMatrix;
 use smartcore::math::distance::{Distance, Distances};
@@ -729,7 +730,14 @@ struct EstCase<'a> {
     /// metric is kept — Euclid only), or F = assignment of the public fields (before / after
     /// with_distance)
     order: &'a str,
+    /// number of rows of the one-call batch predict (the query rows repeated cyclically);
+    /// 0 = exactly the query rows
+    batch_len: usize,
+    /// "inherent": KNN*::fit / .predict;  "trait": SupervisedEstimator::fit / Predictor::predict
+    api: &'a str,
 }
+
+type M = DenseMatrix<f64>;
 
 fn alg_of(b: &str) -> KNNAlgorithmName {
     if b == "linear" { KNNAlgorithmName::LinearSearch } else { KNNAlgorithmName::CoverTree }
@@ -807,18 +815,30 @@ fn est_event_with<D: Distance<P, f64>>(
         "backend": c.backend, "weight": c.weight, "k": c.k, "n": c.x.len(), "order": c.order,
         "wBeforeD": match (c.order.find(|ch| ch == 'w' || ch == 'F'), c.order.find('d')) { (Some(a), Some(b)) => a < b, _ => false },
         "viaFields": c.order.contains('F'), "defaultMetric": !c.order.contains('d'),
+        "api": c.api, "batchLen": if c.batch_len == 0 { c.qs.len() } else { c.batch_len },
         "u": 2, "ident": c.x.iter().all(|r| *r == c.x[0]),
         "X": c.x.iter().map(|r| to_i(r, 2)).collect::<Vec<_>>(), "y": to_i(c.y, 1)});
     let mut preds: Vec<Value> = Vec::new();
     let q10 = Q::new(10);
+    let via_trait = c.api == "trait";
+    let blen = if c.batch_len == 0 { c.qs.len() } else { c.batch_len };
+    let batch_rows: Vec<P> = (0..blen).map(|j| c.qs[j % c.qs.len()].clone()).collect();
     if c.kind == "cls" {
-        let fit = guard(|| KNNClassifier::fit(&xm, &yv, mk_cls()));
+        let fit = guard(|| if via_trait {
+            <KNNClassifier<f64, D> as SupervisedEstimator<M, Vec<f64>, KNNClassifierParameters<f64, D>>>::fit(&xm, &yv, mk_cls())
+        } else {
+            KNNClassifier::fit(&xm, &yv, mk_cls())
+        });
         match fit {
             Ok(Ok(model)) => {
                 ev["fit"] = json!("ok");
                 for q in c.qs {
                     let qm = mat(&[q.clone()]);
-                    let r = guard(|| model.predict(&qm));
+                    let r = guard(|| if via_trait {
+                        <KNNClassifier<f64, D> as Predictor<M, Vec<f64>>>::predict(&model, &qm)
+                    } else {
+                        model.predict(&qm)
+                    });
                     preds.push(match r {
                         Ok(Ok(v)) => match (v.len(), int_exact(*v.get(0).unwrap_or(&f64::NAN))) {
                             (1, Some(o)) => json!({"q": to_i(q, 2), "status": "ok", "out": o}),
@@ -829,8 +849,12 @@ fn est_event_with<D: Distance<P, f64>>(
                     });
                 }
                 // the same rows in one call of predict
-                let qm = mat(c.qs);
-                ev["batch"] = match guard(|| model.predict(&qm)) {
+                let qm = mat(&batch_rows);
+                ev["batch"] = match guard(|| if via_trait {
+                    <KNNClassifier<f64, D> as Predictor<M, Vec<f64>>>::predict(&model, &qm)
+                } else {
+                    model.predict(&qm)
+                }) {
                     Ok(Ok(v)) => match v.iter().map(|&x| int_exact(x)).collect::<Option<Vec<i64>>>() {
                         Some(o) => json!({"status": "ok", "out": o}),
                         None => json!({"status": "garbled"}),
@@ -843,13 +867,21 @@ fn est_event_with<D: Distance<P, f64>>(
             Err(_) => ev["fit"] = json!("panic"),
         }
     } else {
-        let fit = guard(|| KNNRegressor::fit(&xm, &yv, mk_reg()));
+        let fit = guard(|| if via_trait {
+            <KNNRegressor<f64, D> as SupervisedEstimator<M, Vec<f64>, KNNRegressorParameters<f64, D>>>::fit(&xm, &yv, mk_reg())
+        } else {
+            KNNRegressor::fit(&xm, &yv, mk_reg())
+        });
         match fit {
             Ok(Ok(model)) => {
                 ev["fit"] = json!("ok");
                 for q in c.qs {
                     let qm = mat(&[q.clone()]);
-                    let r = guard(|| model.predict(&qm));
+                    let r = guard(|| if via_trait {
+                        <KNNRegressor<f64, D> as Predictor<M, Vec<f64>>>::predict(&model, &qm)
+                    } else {
+                        model.predict(&qm)
+                    });
                     preds.push(match r {
                         Ok(Ok(v)) => {
                             let o = q10.x(*v.get(0).unwrap_or(&f64::NAN));
@@ -865,8 +897,12 @@ fn est_event_with<D: Distance<P, f64>>(
                         Err(_) => json!({"q": to_i(q, 2), "status": "panic"}),
                     });
                 }
-                let qm = mat(c.qs);
-                ev["batch"] = match guard(|| model.predict(&qm)) {
+                let qm = mat(&batch_rows);
+                ev["batch"] = match guard(|| if via_trait {
+                    <KNNRegressor<f64, D> as Predictor<M, Vec<f64>>>::predict(&model, &qm)
+                } else {
+                    model.predict(&qm)
+                }) {
                     Ok(Ok(v)) => {
                         let qb = Q::new(10);
                         let o = qb.v(&v);
@@ -929,7 +965,8 @@ fn gen_est(outp: &str) {
                             let no = rng.gen_range(0..if *m == Metric::Euc { 33 } else { 26 });
                             let order = if no < 26 { ORDERS_D[no] } else { ORDERS_NOD[no - 26] };
                             let c = EstCase { run, kind, metric: *m, backend: b, weight: w, k, x: &x,
-                                y: if kind == "cls" { &ycls } else { &yreg }, qs: &qs, order };
+                                y: if kind == "cls" { &ycls } else { &yreg }, qs: &qs, order,
+                                batch_len: 0, api: if rng.gen_bool(0.5) { "inherent" } else { "trait" } };
                             out.emit(with_metric!(*m, d, est_event(d, &c)));
                         }
                     }
@@ -1132,10 +1169,12 @@ fn rerun(inp: &str, outp: &str) {
                 _ => vec![x[0].clone()],
             };
             let order = e["order"].as_str().unwrap_or("dawk").to_string();
+            let api = e["api"].as_str().unwrap_or("inherent").to_string();
             let (kind, backend, weight) = (e["kind"].as_str().unwrap_or("cls").to_string(),
                 e["backend"].as_str().unwrap_or("cover").to_string(), e["weight"].as_str().unwrap_or("uniform").to_string());
             let c = EstCase { run: e["run"].as_i64().unwrap_or(0), kind: &kind, metric: m, backend: &backend, weight: &weight,
-                k: e["k"].as_u64().unwrap_or(0) as usize, x: &x, y: &y, qs: &qs, order: &order };
+                k: e["k"].as_u64().unwrap_or(0) as usize, x: &x, y: &y, qs: &qs, order: &order,
+                batch_len: e["batchLen"].as_u64().unwrap_or(0) as usize, api: &api };
             out.emit(with_metric!(m, d, est_event(d, &c)));
             redone += 1;
         } else {
@@ -1143,6 +1182,179 @@ fn rerun(inp: &str, outp: &str) {
         }
     }
     println!("{} events, {} re-executed", out.finish(), redone);
+}
+
+// ------------------------------------------------------------------------------------------
+// gen-ladder: size ladder.  The statement speaks of every non-empty point set; sizes around the
+// powers of two (where a blocked scan, a bounded stack or a capacity doubling would change
+// behaviour) are run for both structures on lattice data: a 1-D chain (a random permutation
+// of 0..n-1: all distances distinct, every index matters) or a small 2-D grid with many
+// duplicates and ties.  Few k / radii per event keep the work of the specification O(n).
+// ------------------------------------------------------------------------------------------
+fn ladder_sizes() -> Vec<usize> {
+    let mut v = vec![63, 64, 65, 127, 128, 129, 255, 256, 257, 300, 511, 512, 513, 1023, 1024, 1025];
+    if thorough() {
+        v.extend([2047, 2049, 3000]);
+    }
+    v
+}
+
+fn gen_ladder(outp: &str) {
+    let mut out = Out::create(outp);
+    let mut rng = rng(0x0c04_0004);
+    let mut run = 0i64;
+    for (si, &n) in ladder_sizes().iter().enumerate() {
+        let chain = si % 3 != 2;
+        let data: Vec<P> = if chain {
+            let mut perm: Vec<usize> = (0..n).collect();
+            perm.shuffle(&mut rng);
+            perm.iter().map(|&v| vec![v as f64]).collect()
+        } else {
+            (0..n).map(|_| vec![rng.gen_range(0..12) as f64, rng.gen_range(0..12) as f64]).collect()
+        };
+        let dims = data[0].len();
+        let metrics: Vec<Metric> = if chain { vec![[Metric::Man, Metric::Euc][si % 2]] } else { vec![[Metric::Euc, Metric::Ham, Metric::Mink(3), Metric::Man][si % 4]] };
+        let qs: Vec<P> = vec![
+            data[rng.gen_range(n / 2..n)].clone(),
+            (0..dims).map(|_| rng.gen_range(0..if chain { 2 * n } else { 24 }) as f64 / 2.0).collect(),
+        ];
+        let ks = vec![0, 1, 2, n / 2, n - 1, n, n + 1];
+        let rs = vec![RSpec::Zero, RSpec::Below, RSpec::Above, RSpec::At(0), RSpec::At(1), RSpec::Mid(1), RSpec::At(5), RSpec::Mid(7),
+            RSpec::Mid(if chain { n / 3 } else { 9 }), RSpec::At(if chain { n / 2 } else { 14 })];
+        for q in &qs {
+            for &m in &metrics {
+                for b in BACKENDS {
+                    run += 1;
+                    let c = Case { run, src: "lat", metric: m, backend: b, u: 2, data: &data, q, ks: &ks, rs: &rs };
+                    out.emit(with_metric!(m, d, sweep(d, &c)));
+                }
+            }
+        }
+    }
+    println!("{} ladder events", out.finish());
+}
+
+// ------------------------------------------------------------------------------------------
+// gen-deep: data with an extreme dynamic range, which make the cover tree very deep.
+//  multi-scale: a few far-apart points plus a tight group of distinct points at a spacing of
+//               2^-e of the extent (e = 20 .. 50), queried inside the group with radii of a few
+//               spacings and k = size of the group;
+//  geometric:   +-2^0, 2^1, ..., 2^m in 1-D (m up to 100) and doubling points in 2-D, stored
+//               ascending, descending or shuffled.
+// All coordinates are dyadic.  The keys are the dense ranks of the distances computed by the
+// library's own metric (src = "cont"), which is all IsKnn / IsRadius need.
+// ------------------------------------------------------------------------------------------
+fn gen_deep(outp: &str) {
+    let mut out = Out::create(outp);
+    let mut rng = rng(0x0c04_0005);
+    let mut run = 0i64;
+    let mut emit = |out: &mut Out, data: &Vec<P>, qs: &Vec<P>, ks: &Vec<usize>, rs: &Vec<RSpec>, m: Metric| {
+        for q in qs {
+            for b in BACKENDS {
+                run += 1;
+                let c = Case { run, src: "cont", metric: m, backend: b, u: 1, data, q, ks, rs };
+                out.emit(with_metric!(m, d, sweep(d, &c)));
+            }
+        }
+    };
+    // ---- multi-scale
+    let reps = if thorough() { 6 } else { 2 };
+    for rep in 0..reps {
+        for &e in &[20i32, 40, 45, 50] {
+            for dims in 1..=2usize {
+                let extent = [4.0, 16.0, 1.0][(rep + dims) % 3];
+                let s = extent * 2f64.powi(-e);
+                let g = rng.gen_range(3..=8usize);
+                let centre: P = (0..dims).map(|_| extent * [0.5, 0.25, 0.75][rng.gen_range(0..3)]).collect();
+                let group: Vec<P> = (0..g).map(|j| centre.iter().enumerate()
+                    .map(|(a, &c)| c + s * if a == 0 { j as f64 } else { ((j * j) % 3) as f64 }).collect()).collect();
+                let far: Vec<P> = (0..rng.gen_range(2..=6)).map(|_| (0..dims).map(|_| (rng.gen_range(0..=4) as f64) * extent / 4.0).collect()).collect();
+                let mut data: Vec<P> = match rep % 3 {
+                    0 => far.iter().chain(group.iter()).cloned().collect(),
+                    1 => group.iter().chain(far.iter()).cloned().collect(),
+                    _ => { let mut d: Vec<P> = far.iter().chain(group.iter()).cloned().collect(); d.shuffle(&mut rng); d }
+                };
+                if rep % 2 == 1 { data.push(group[0].clone()); } // one exact duplicate as well
+                let n = data.len();
+                let qs: Vec<P> = vec![group[g / 2].clone(),
+                    centre.iter().enumerate().map(|(a, &c)| c + if a == 0 { 1.5 * s } else { 0.0 }).collect(),
+                    far[0].clone()];
+                let ks = vec![1, 2, g, g + 1, n];
+                let rs = vec![RSpec::Abs(2.5 * s), RSpec::Abs(1.25 * s), RSpec::Abs((g as f64 + 0.5) * s), RSpec::At(1), RSpec::Mid(1),
+                    RSpec::At(g - 1), RSpec::Mid(g - 1), RSpec::Above, RSpec::Abs(extent / 3.0)];
+                emit(&mut out, &data, &qs, &ks, &rs, [Metric::Euc, Metric::Man][(rep + e as usize) % 2]);
+            }
+        }
+    }
+    // ---- geometric
+    for &m in &[30i32, 60, 100] {
+        for ord in 0..3 {
+            let mut pts: Vec<f64> = (0..=m).map(|j| 2f64.powi(j)).collect();
+            if ord == 2 { pts.extend((0..=m).step_by(3).map(|j| -(2f64.powi(j)))); }
+            match ord { 1 => pts.reverse(), 2 => pts.shuffle(&mut rng), _ => {} }
+            let data: Vec<P> = pts.iter().map(|&v| vec![v]).collect();
+            let n = data.len();
+            let qs: Vec<P> = vec![vec![1.0], vec![3.0 * 2f64.powi(m / 2)], vec![0.0], vec![2f64.powi(m)]];
+            let ks = vec![1, 2, 5, n / 2, n];
+            let rs = vec![RSpec::At(1), RSpec::Mid(2), RSpec::At(4), RSpec::Mid(n / 2), RSpec::Above, RSpec::Abs(2.5), RSpec::Abs(100.0)];
+            emit(&mut out, &data, &qs, &ks, &rs, [Metric::Man, Metric::Euc, Metric::Mink(3)][ord]);
+        }
+    }
+    // doubling points in 2-D: (2^j, 0), (0, 2^j), (2^j, 2^j)
+    for &m in &[40i32, 70] {
+        let mut data: Vec<P> = Vec::new();
+        for j in 0..=m {
+            let v = 2f64.powi(j);
+            data.push(match j % 3 { 0 => vec![v, 0.0], 1 => vec![0.0, v], _ => vec![v, v] });
+        }
+        if m == 70 { data.reverse(); }
+        let n = data.len();
+        let qs: Vec<P> = vec![vec![1.0, 0.0], vec![0.0, 0.0], vec![2f64.powi(m / 2), 1.0]];
+        let ks = vec![1, 3, n / 2, n];
+        let rs = vec![RSpec::At(1), RSpec::Mid(3), RSpec::Mid(n / 2), RSpec::Above, RSpec::Abs(3.0)];
+        emit(&mut out, &data, &qs, &ks, &rs, if m == 40 { Metric::Euc } else { Metric::Man });
+    }
+    println!("{} deep-structure events", out.finish());
+}
+
+// ------------------------------------------------------------------------------------------
+// gen-estbig: estimators beyond the small lattices — training sets of 300+ rows (a 1-D chain,
+// so that at most two rows tie at any distance and the vote specification stays cheap), one
+// batch predict of 257 .. 1025 rows (the few judged query rows repeated cyclically), inherent
+// and trait entry points.
+// ------------------------------------------------------------------------------------------
+fn gen_estbig(outp: &str) {
+    let mut out = Out::create(outp);
+    let mut rng = rng(0x0c04_0006);
+    let mut run = 0i64;
+    let sizes: Vec<usize> = if thorough() { vec![12, 300, 520, 1030] } else { vec![12, 300, 520] };
+    let blens = [257usize, 513, 600, 1025];
+    for (si, &n) in sizes.iter().enumerate() {
+        let mut perm: Vec<usize> = (0..n).collect();
+        perm.shuffle(&mut rng);
+        let x: Vec<P> = perm.iter().map(|&v| vec![v as f64]).collect();
+        let labels = [-3.0, 5.0, 10.0];
+        let ycls: Vec<f64> = perm.iter().map(|&v| labels[(v / 2 + v / 7) % 3]).collect();
+        let yreg: Vec<f64> = perm.iter().map(|&v| ((v * 5) % 17) as f64 - 8.0).collect();
+        let qs: Vec<P> = vec![x[rng.gen_range(0..n)].clone(), x[n - 1].clone(), vec![rng.gen_range(0..n) as f64 + 0.5],
+            vec![-0.5], vec![n as f64 - 0.5]];
+        for (ki, &k) in [1usize, 2, 3, 5].iter().enumerate() {
+            for b in BACKENDS {
+                for w in ["uniform", "distance"] {
+                    for kind in ["cls", "reg"] {
+                        if kind == "cls" && k == 1 { continue; }
+                        run += 1;
+                        let order = ORDERS_D[rng.gen_range(0..26)];
+                        let c = EstCase { run, kind, metric: Metric::Man, backend: b, weight: w, k, x: &x,
+                            y: if kind == "cls" { &ycls } else { &yreg }, qs: &qs, order,
+                            batch_len: blens[(si + ki + run as usize) % 4], api: if run % 2 == 0 { "inherent" } else { "trait" } };
+                        out.emit(est_event(Distances::manhattan(), &c));
+                    }
+                }
+            }
+        }
+    }
+    println!("{} large estimator events", out.finish());
 }
 
 fn main() {
@@ -1154,6 +1366,9 @@ fn main() {
         "gen-random" => gen_random(arg(&args, 2)),
         "gen-heap" => gen_heap(arg(&args, 2), arg(&args, 3)),
         "gen-est" => gen_est(arg(&args, 2)),
+        "gen-ladder" => gen_ladder(arg(&args, 2)),
+        "gen-deep" => gen_deep(arg(&args, 2)),
+        "gen-estbig" => gen_estbig(arg(&args, 2)),
         "gen-linfind" => gen_linfind(arg(&args, 2), arg(&args, 3)),
         "rerun" => rerun(arg(&args, 2), arg(&args, 3)),
         "gen-tree" => gen_tree(arg(&args, 2), arg(&args, 3)),
